@@ -1,0 +1,31 @@
+//! Facade for `common::frim` (which is `pub(crate)`), plus the pause point
+//! used to replay a chosen interleaving of the `rcu` writers deterministically.
+//!
+//! `pause(site)` is called (only when the crate is built with feature
+//! `verif-hooks`) at the start of every execution of the closures that
+//! `FrimMap::{insert, retain, remove}` hand to `ArcSwap::rcu`, i.e. after the
+//! current vector was loaded and before the new one is computed and
+//! compare-and-swapped. By default it does nothing. A harness thread may
+//! install a thread-local callback that parks the thread until a controller
+//! releases it.
+pub use crate::common::frim::{Entry, FrimMap, Iter, IterGuard};
+
+use std::cell::RefCell;
+
+thread_local! {
+    static PAUSE_HOOK: RefCell<Option<Box<dyn Fn(&'static str)>>> = RefCell::new(None);
+}
+
+/// Installs (or with `None` removes) the pause callback of the calling thread.
+pub fn set_pause_hook(f: Option<Box<dyn Fn(&'static str)>>) {
+    PAUSE_HOOK.with(|h| *h.borrow_mut() = f);
+}
+
+/// Pause point. No effect unless the calling thread installed a callback.
+pub fn pause(site: &'static str) {
+    PAUSE_HOOK.with(|h| {
+        if let Some(f) = h.borrow().as_ref() {
+            f(site)
+        }
+    });
+}
